@@ -68,9 +68,22 @@ def _abs(eng, x):
 
 
 def _minmax(is_min):
-    def f(eng, *args):
+    def f(eng, *args, key=None):
         if len(args) == 1:
             args = eng.iter_concrete(args[0])
+        if key is not None:
+            # min / max with a key function: the first item with the extremal key (keys may be symbolic numbers or tuples)
+            import ast as _ast
+            r, kr = args[0], eng.call(key, [args[0]])
+            for a in args[1:]:
+                ka = eng.call(key, [a])
+                better = eng.compare(_ast.Lt() if is_min else _ast.Gt(), ka, kr)
+                if isinstance(better, bool):
+                    if better:
+                        r, kr = a, ka
+                else:
+                    r, kr = eng.ite_value(better, a, r), eng.ite_value(better, ka, kr)
+            return r
         r = args[0]
         for a in args[1:]:
             if not is_sym(r) and not is_sym(a):
